@@ -14,6 +14,8 @@ import subprocess
 import sys
 
 ROOT = '/verif'
+# evidence/replays of runs against a deliberately broken tree go here (git-ignored), never to /verif/evidence
+SCRATCH_OUT = os.path.join(ROOT, '.cache', 'seed_out')
 
 
 def sh(cmd, cwd=None, env=None, timeout=3000):
@@ -81,7 +83,7 @@ def main():
         for c in man['checks']:
             if c['property_id'] not in sel:
                 continue
-            rc, out = sh(c['quick_cmd'], cwd=ROOT)
+            rc, out = sh(c['quick_cmd'], cwd=ROOT, env={'H2VC_OUT_DIR': SCRATCH_OUT})
             viol = [l for l in out.splitlines() if l.startswith('VIOLATION')]
             obl = [l.strip() for l in out.splitlines() if l.strip().startswith('obligation ')]
             caught[c['property_id']] = {'exit': rc, 'violations': viol[:5], 'obligations': obl[:5]}
